@@ -58,6 +58,9 @@ def gen_config(rng):
                  "keep_missed": rng.random() < 0.7},
         "weights": wkind,
         "exact": wkind != "float",
+        # value type of the stream: float64 values, or values representable in float32 that are handed over
+        # in single precision by some deliveries (numpy float32 scalars / arrays) and in double by others
+        "vtype": rng.choice(["f64", "f64", "f64", "f32"]),
     }
 
 
@@ -133,6 +136,9 @@ def generate(rng, seed, part):
     modes = ["batch"] + [rng.choice(["single", "chunks", "mixed", "batch"]) for _ in range(k - 1)]
     rng.shuffle(modes)
     cfg["replicas"] = modes
+    if cfg["vtype"] == "f32":
+        for e in entries:
+            e[0] = build.q32(e[0])
     n_epochs = rng.randint(1, 3) if len(entries) > 2 else 1
     cuts = sorted(rng.randrange(len(entries) + 1) for _ in range(n_epochs - 1))
     bounds = [0] + cuts + [len(entries)]
@@ -144,6 +150,8 @@ def generate(rng, seed, part):
             dl = gen_deliveries(rng, mode, idxs, entries, ndim, ep == 0, cfg["hist"]["keep_missed"])
             for d in dl:
                 d["r"] = r
+                if cfg["vtype"] == "f32" and d["op"] in ("fill", "fill_n") and rng.random() < 0.5:
+                    d["vt"] = "f32"
             queues.append(dl)
         # interleave the replicas' deliveries, preserving each replica's own order
         while any(queues):
@@ -334,6 +342,9 @@ def execute(plan, ctx):
                 continue
             v, w = entries[i]
             val = v if ndim == 1 else list(v)
+            if op.get("vt") == "f32":
+                val = np.float32(v) if ndim == 1 else np.asarray(v, dtype=np.float32)
+                ctx.probe("float32_value_delivery")
             pre = snap(h)
             ok0, idx0 = attempt(h.find_bin, val)
             mid = snap(h)
@@ -416,6 +427,11 @@ def execute(plan, ctx):
                 kw["columns"] = True
             if ndim > 1 and not idxs:
                 data = np.zeros((ndim, 0) if cont == "columns" else (0, ndim))
+            if op.get("vt") == "f32" and cont != "iter":
+                data = np.asarray(data, dtype=np.float32)
+                if cont in ("list", "tuple") and ndim == 1:
+                    data = [np.float32(x) for x in data]
+                ctx.probe("float32_value_delivery")
             n_nan = sum(1 for i in idxs if is_nan_entry(entries[i]))
             if op.get("dropna") is False and n_nan == 0:
                 kw["dropna"] = False  # valid: nothing to drop
